@@ -877,12 +877,12 @@ def filter_literal(
         return str(language.valuetoken_true if value else language.valuetoken_false)
 
     elif isinstance(ty, pydsdl.IntegerType):
-        out = (
-            str(value)
-            + "U" * isinstance(ty, pydsdl.UnsignedIntegerType)
-            + "L" * (ty.bit_length > 16)
-            + "L" * (ty.bit_length > 32)
-        )
+        suffix = "U" * isinstance(ty, pydsdl.UnsignedIntegerType) + "L" * (ty.bit_length > 16) + "L" * (ty.bit_length > 32)
+        if value == -(2**63):
+            # The magnitude of the most negative 64-bit integer does not fit any signed literal (the compiler would
+            # make it unsigned), so it is spelled the way <stdint.h> spells INT64_MIN.
+            return "({}{} - 1{})".format(value + 1, suffix, suffix)
+        out = str(value) + suffix
         assert isinstance(out, str)
         return out
 
